@@ -423,6 +423,9 @@ func modelUnmarshal(c *Case, recv [3]int) (e expect, doc string) {
 			}
 			switch cd.kind {
 			case "coder":
+				if beh == "open-all" {
+					beh = "partial" // the same verdict: one token is a whole value only for a string
+				}
 				if !conformingCoder[beh] && !(beh == "partial" && in == "str") {
 					e.nonconf = true
 				}
